@@ -45,6 +45,9 @@ func TestWorker(t *testing.T) {
 		}
 		seed := seed0 + int64(i)*stride
 		res := RunOne(t, NewTape(seed), seed, RunOpts{Property: prop})
+		if prop == "C19" {
+			isolationCheck(t, res, seed)
+		}
 		line := map[string]interface{}{"seed": seed, "family": res.Scenario.Family, "steps": res.Steps, "sim_s": res.SimSeconds, "end": res.EndReason,
 			"writes": res.Writes, "calls": res.Calls, "stats": res.Stats, "probes": res.Probes, "violations": res.Violations,
 			"trace_hash": res.TraceHash, "log_hash": res.LogHash, "final": res.Final, "nchoices": len(res.Choices)}
@@ -134,5 +137,25 @@ func enumQuiet(prop string) func(sc *Scenario, cfg *Config) {
 			}
 		}
 		sc.Events = keep
+	}
+}
+
+// isolationCheck (C19): every rollout of the concurrent run must end in the same abstract state as when it runs alone.
+func isolationCheck(t *testing.T, res *RunResult, seed int64) {
+	if res.EndReason != "quiescent" || res.NScenarios < 2 {
+		return
+	}
+	for i := 1; i <= res.NScenarios; i++ {
+		solo := RunOne(t, NewTape(seed), seed, RunOpts{Property: "C19", Only: i})
+		res.Probes["c19.solo-runs"]++
+		if solo.EndReason != "quiescent" {
+			continue
+		}
+		for k, d := range solo.Digests {
+			if cd, ok := res.Digests[k]; ok && cd != d {
+				res.Violations = append(res.Violations, Violation{Property: "C19", Oracle: "I1-solo-equivalence", Sig: "I1/" + solo.Scenario.Family + "|ev=", Seq: 0,
+					Detail: fmt.Sprintf("rollout %s ends differently when other rollouts run in the same process:\n  concurrent: %s\n  solo      : %s", k, cd, d)})
+			}
+		}
 	}
 }
